@@ -103,6 +103,24 @@ def run(chk):
     n = chk.n(800, 16000)
     for it in range(n):
         d = gen_partial_wordlist(rng)
+        if rng.random() < 0.25:
+            # token cells as the library's own segment-list type (what a word list read from a file holds), some of them edited in place
+            # after they were made (a morpheme added, a border inserted): the morphemes are those of the segments as they are NOW
+            from lingpy.basictypes import lists as seglist
+            for k in d:
+                if k == 0:
+                    continue
+                cell = seglist(list(d[k][3]))
+                r = rng.random()
+                if r < 0.3:
+                    cell.extend(rng.choice([['+', 'k', 'a'], ['+', 't', 'o'], ['m', 'a']]))
+                elif r < 0.5 and len(cell) >= 3 and '+' not in (cell[0], cell[1], cell[2]):
+                    cell.insert(1, '+')
+                segs = list(cell)
+                if any(not m for m in ' '.join(segs).split(' + ')) or segs[0] == '+' or segs[-1] == '+' or any(a == b == '+' for a, b in zip(segs, segs[1:])):
+                    cell = seglist(list(d[k][3]))          # the edit made an empty morpheme: malformed, keep the cell as it was
+                d[k] = list(d[k][:3]) + [cell]
+            chk.hist['token cells of the segment-list type, edited in place'] += 1
         link = rng.choice(['upgma', 'single', 'complete'])
         t = rng.choice([0.2, 0.35, 0.45, 0.55, 0.75, 1.0])
         pp = rng.random() < 0.5
